@@ -20,6 +20,7 @@ pub fn arg_strategy(kind: Arg, universe: u64) -> BoxedStrategy<u64> {
         Arg::Bool => (0u64..2).boxed(),
         Arg::Choice(n) => (0..n.max(1)).boxed(),
         Arg::Any => prop_oneof![3 => 0u64..64, 1 => any::<u64>()].boxed(),
+        Arg::Wide => any::<u64>().boxed(),
     }
 }
 
@@ -268,6 +269,33 @@ pub fn serde_case_strategy() -> BoxedStrategy<Case> {
                     c.ops = entries.iter().map(|(k, v)| hbv::case::Op::new(0, &[*k, *v])).collect();
                     c
                 })
+            })
+        })
+        .boxed()
+}
+
+pub fn par_case_strategy(max_ops: usize) -> BoxedStrategy<Case> {
+    static W: &[(u16, u32)] = &[
+        (hbv::specs::par::INSERT, 6),
+        (hbv::specs::par::FILL, 10),
+        (hbv::specs::par::REMOVE_RANGE, 4),
+        (hbv::specs::par::REMOVE_STRIDE, 3),
+        (hbv::specs::par::PAR, 20),
+    ];
+    let size = || prop_oneof![2 => 0u64..20, 3 => 20u64..300, 3 => 300u64..3001];
+    (plan_strategy(), 0u32..100, [size(), size(), size(), size()], [0u64..4000, 0u64..4000, 0u64..4000, 0u64..4000])
+        .prop_flat_map(move |(plan, be, sizes, bases)| {
+            vec(ops_strategy(hbv::specs::PAR_OPS, W, 1), 1..max_ops).prop_map(move |mut ops| {
+                // every collection starts with a generated occupancy
+                for i in (0..4).rev() {
+                    ops.insert(0, hbv::case::Op::new(hbv::specs::par::FILL, &[sizes[i], i as u64, bases[i]]));
+                }
+                let mut c = Case::new("par");
+                c.set("prop", 19);
+                c.set("backend", (be < 25) as u64);
+                set_plan(&mut c, "", plan);
+                c.ops = ops;
+                c
             })
         })
         .boxed()
